@@ -2,6 +2,7 @@ import Driver.DiffDB
 import Driver.Fns
 import Driver.Codec
 import Driver.BFT
+import Driver.Hash
 
 def main (args : List String) : IO UInt32 := do
   match args with
@@ -9,5 +10,6 @@ def main (args : List String) : IO UInt32 := do
   | ["C07"] => Driver.Fns.main; return 0
   | ["C08"] => Driver.Codec.main; return 0
   | ["C02"] => Driver.BFT.main; return 0
+  | ["hash"] => Driver.Hash.main; return 0
   | ["C01"] => Driver.BFT.main; return 0
   | _ => IO.eprintln "usage: ldriver <property-id>"; return 2
